@@ -383,7 +383,8 @@ Lemma run_ops_log depth ops : forall s, w_log (sw (run_ops depth s ops)) = w_log
 Proof.
   unfold run_ops, writes_of. induction ops as [|o t IH]; intro s; cbn [fold_left flat_map]; [rewrite app_nil_r; reflexivity|].
   rewrite IH. destruct o; try (rewrite step_log by reflexivity; reflexivity).
-  cbn [step lift_w sw w_write fst w_log app]. rewrite <- app_assoc. reflexivity.
+  - cbn [step lift_w sw w_write fst w_log app]. rewrite <- app_assoc. reflexivity.
+  - reflexivity.
 Qed.
 
 Theorem run_ok c : 0 <= c_depth c -> ok c (run c) = true.
